@@ -657,9 +657,10 @@ class Gen:
                 else:
                     self.emit("use %s, only: %s" % (u, self.ch(["nShared", "nShared, localR => rShared"])), kind="use_only")
         if self.p(0.12):
-            self.emit(self.ch(["use, intrinsic :: iso_c_binding, only: c_int, c_double",
-                               "use, intrinsic :: iso_fortran_env", "use, non_intrinsic :: userMod, only: opr => myop",
-                               "use :: iso_c_binding, only: operator(+), assignment(=)"]), kind="use_nature")
+            t = self.ch(["use, intrinsic :: iso_c_binding, only: c_int, c_double",
+                         "use, intrinsic :: iso_fortran_env", "use, non_intrinsic :: userMod, only: opr => myop",
+                         "use :: iso_c_binding, only: operator(+), assignment(=)"])
+            self.emit(t, kind="use_operator" if "operator" in t else "use_nature")
         r0 = self.r.random()
         if r0 < 0.65:
             self.emit("implicit none", kind="implicit")
